@@ -79,6 +79,12 @@ def raise_fault(flavour, key):
         raise simmp.Killed()
     if flavour == "oserror":
         raise IsADirectoryError(21, "injected fault at %r" % (key,))
+    if flavour == "oserror-noerrno":
+        # what damaged inputs produce (PIL: "image file is truncated", astropy: "Empty or corrupt FITS file"): errno is None
+        raise OSError("injected fault at %r" % (key,))
+    if flavour == "exit-status":
+        # an error reported the way command-line code does: sys.exit with a message (exit status 1)
+        raise SystemExit("injected fault at %r" % (key,))
     raise ValueError("injected fault at %r" % (key,))
 
 
